@@ -148,6 +148,31 @@ def _opthist(c):
     return None
 
 
+def big_case(rng, dt):
+    """results computed from more than 2^20 elements (implementation side only): the dtype rule has no size limit"""
+    return {'kind': 'big', 'op': 'large-input', 'dt': dt, 'gdt': dt, 'nout': 1, 'zero_d': True, 'seed': rng.randrange(2 ** 31), 'lines': ['t modes']}
+
+
+def _big(c):
+    sg = common.impl()
+    from synapgrad import nn
+    dt = tprog.DT[c['dt']]
+    rs = np.random.RandomState(c['seed'])
+    x = sg.Tensor(rs.rand(1030, 1024).astype(dt), requires_grad=True)          # 1 054 720 elements
+    t = sg.Tensor(rs.rand(1030, 1024).astype(dt))
+    probes = [('mean()', lambda: x.mean()), ('sum()', lambda: x.sum()), ('mean(dim=0)', lambda: x.mean(dim=0)), ('mean(dim=(0,1), keepdims)', lambda: x.mean(dim=(0, 1), keepdims=True)),
+              ('max()', lambda: x.max()), ('reshape(-1).mean()', lambda: x.reshape((-1,)).mean()), ('MSELoss(mean)', lambda: nn.MSELoss()(x, t)),
+              ('MSELoss(sum)', lambda: nn.MSELoss(reduction='sum')(x, t)), ('(x * x).mean()', lambda: (x * x).mean()), ('x - x.mean(dim=1, keepdims)', lambda: x - x.mean(dim=1, keepdims=True))]
+    for name, f in probes:
+        y = f()
+        if y.dtype != dt: return f'{name} of a {c["dt"]} tensor with {x.data.size} elements returned {y.dtype}'
+    y = (x * x).mean(); x.zero_(); y.backward()
+    if x.grad.dtype != dt or x.grad.shape != x.shape: return f'gradient of a large mean is {x.grad.dtype}{x.grad.shape}'
+    ref = 2 * x.data.astype(np.float64) / x.data.size
+    if not np.allclose(x.grad.data, ref, rtol=1e-4 if c['dt'] == 'f32' else 1e-10, atol=0): return 'gradient of a large mean has the wrong value'
+    return None
+
+
 def hist_case(rng, dt):
     """a history of backward calls over one DAG of dtype `dt`: roots are op results AND leaves (a leaf that already holds a
     gradient accumulates), upstream gradients alternate between float32 and float64; the dtype of every gradient buffer is
@@ -179,6 +204,7 @@ def cases(rng, tier):
             out.append(hist_case(rng, dt))
         for _ in range(4 * reps):
             out.append(opthist_case(rng, dt))
+        out.append(big_case(rng, dt))
     for dt in ('f32', 'f64'):
         for _ in range(6 * reps):
             out.append(bnhist_case(rng, dt))
@@ -211,6 +237,9 @@ def compare(c, mo, io):
     if c['kind'] == 'opthist':
         f = common.outcome(lambda: _opthist(c))
         return [('optimizer history', 'dtype kept', str(f))] if f else []
+    if c['kind'] == 'big':
+        f = common.outcome(lambda: _big(c))
+        return [('large input', 'dtype kept', str(f))] if f else []
     diffs = []
     for l, m, i in zip(c['lines'], mo, io):
         if l.startswith(('t dtype', 't gdtype')) or l.startswith(('t op', 't sop', 't loss', 't leaf')):
@@ -267,6 +296,9 @@ def oracle(c):
     if c['kind'] == 'opthist':
         f = common.outcome(lambda: _opthist(c))
         return {'key': dict(key, cls='optimizer-history-dtype'), 'case': cc, 'what': str(f)} if f else None
+    if c['kind'] == 'big':
+        f = common.outcome(lambda: _big(c))
+        return {'key': dict(key, cls='large-input-dtype'), 'case': cc, 'what': str(f)} if f else None
     io = tprog.run_program(c['lines'])
     for l, o in zip(c['lines'], io):
         if l.startswith('t dtype') and o in ('f32', 'f64') and o != c['dt']:
